@@ -43,6 +43,11 @@ def bounds(tier):
 def chain_specs(tier):
     b = bounds(tier)
     out = [{"blocks": [], "ends": ["tip", "tip"]}]
+    # naming and size variants on a few chains: vg-style numeric ids, names with non-word characters, a haplotype allele
+    # longer than the whole reference of the component
+    for bl in ([], ["snp"], ["snp", "link"], ["insertion", "deletion"]):
+        for kw in ({"id_style": "numeric"}, {"id_style": "odd"}, {"long_hap": True}):
+            out.append({"blocks": bl, "ends": ["tip", "open"] if bl else ["tip", "tip"], "kw": kw})
     for bl in gen.chains(b["max_blocks"]):
         for e in ENDS if len(bl) <= 1 else ENDS[:2] if len(bl) == 2 else ENDS[:1]:
             out.append({"blocks": bl, "ends": list(e)})
@@ -119,10 +124,10 @@ def judge_run(res, scratch, text, chains, chrom_order, root, flip, what, base_ma
 
 
 def single_chain(res, scratch, spec, decl):
-    c = gen.Chain(spec["blocks"], decl=decl, ends=tuple(spec["ends"]))
+    c = gen.Chain(spec["blocks"], decl=decl, ends=tuple(spec["ends"]), **spec.get("kw", {}))
     g = c.g
     text = g.text()
-    name = f"{'-'.join(spec['blocks']) or 'no-block'}|{'/'.join(spec['ends'])}|{decl}"
+    name = f"{'-'.join(spec['blocks']) or 'no-block'}|{'/'.join(spec['ends'])}|{decl}" + (f"|{spec['kw']}" if spec.get("kw") else "")
     base = judge_run(res, scratch, text, [c], "chr1", 0, False, f"[{name}] base run")
     if spec["blocks"]:
         res.nt(fw.h64(["base", name]))
